@@ -20,6 +20,7 @@ type TFWrite struct {
 type C11Case struct {
 	Root   V         `json:"root"`
 	Writes []TFWrite `json:"writes"`
+	Build  int       `json:"build,omitempty"` // construction-route seed (0 = Add/Set)
 }
 
 // tnode is the reference tree with identities.
@@ -294,6 +295,9 @@ func genWritePath(t *rapid.T, root *tnode, forUnset bool) []tfSeg {
 			switch {
 			case choice == 0 && n > 0:
 				idx = drawIdx(t, n, "i")
+				if n > 20 && drawBool(t, "tail") {
+					idx = n - 1 - drawInt(t, 0, 2, "fromend")
+				}
 			case choice == 1 || n == 0 && choice == 0:
 				idx = n
 			default:
@@ -354,6 +358,9 @@ func tfTreeRoot(t *rapid.T) V {
 func GenC11(t *rapid.T) *C11Case {
 	root := tfTreeRoot(t)
 	c := &C11Case{Root: root}
+	if drawBool(t, "variant") {
+		c.Build = 1 + genRaw(t)
+	}
 	model := tFromV(root)
 	nw := drawInt(t, 1, 5, "nwrites")
 	cfg := tfTreeCfg()
@@ -434,7 +441,7 @@ func CheckC11(c *C11Case, st *Stats) error {
 	if c.Root.K != KList && c.Root.K != KObject {
 		return nil
 	}
-	root := Build(c.Root)
+	root := BuildVariant(c.Root, c.Build)
 	model := tFromV(c.Root)
 	bindBuilt(model, root)
 	everSeen := map[any]bool{}
